@@ -218,8 +218,12 @@ class BO(Conversions):
         """
         super().__setitem__(key, value)
 
+        # only variables that actually entered the model get an integer
+        # label (not those of a key that was squashed away or set to zero),
+        # so that the mapping is always a bijection between ``variables``
+        # and ``range(num_binary_variables)``.
         for i in key:
-            if i not in self._mapping:
+            if i not in self._mapping and i in self._variables:
                 self._mapping[i] = self._next_label
                 self._reverse_mapping[self._next_label] = i
                 self._next_label += 1
